@@ -398,6 +398,33 @@ def run(tier, seed, replay=None):
         if same_steps and r is not True:
             fail('plan_eq_of_equal_steps_is_not_True', {'sql': s, 'result_of_==': repr(r)})
             break
+    # plans of DIFFERENT statements, the empty plan and plans cut short: == must be symmetric and equal plans must print the same
+    from mindsdb_sql.planner.query_plan import QueryPlan
+
+    def pdump(p_):
+        return [str(s_) for s_ in p_.steps]
+    cand = [(s, p1) for s, p1, _ in plans[:60]]
+    cand += [(f'{s} [first {k} steps]', QueryPlan(steps=list(p1.steps[:k]))) for s, p1, _ in plans[:25] for k in range(0, len(p1.steps))]
+    cand.append(('<empty plan>', QueryPlan()))
+    npairs = 0
+    reported = 0
+    for i in range(len(cand)):
+        for j in range(i + 1, len(cand)):
+            (sa, pa), (sb, pb) = cand[i], cand[j]
+            npairs += 1
+            try:
+                e1, e2 = (pa == pb), (pb == pa)
+            except Exception as e:
+                fail('plan_eq_raises', {'a': sa, 'b': sb, 'exception': repr(e)})
+                continue
+            if bool(e1) != bool(e2) and reported < 3:
+                reported += 1
+                fail('plan_eq_not_symmetric', {'a': sa, 'b': sb, 'a == b': repr(e1), 'b == a': repr(e2)})
+            elif e1 and pdump(pa) != pdump(pb) and reported < 3:
+                reported += 1
+                fail('equal_plans_differ', {'a': sa, 'b': sb, 'steps_of_a': pdump(pa), 'steps_of_b': pdump(pb)})
+    evaluations += npairs
+    stats['plan_pairs_compared'] = npairs
     try:
         evaluations += 1
         h1, h2 = hash(StepResult(1)), hash(StepResult(1))
